@@ -126,6 +126,15 @@ class Builder:
             return {key: c for key, c in reversed(list(zip(tree['keys'], ch)))}
         raise Unbuildable(tree['k'])
 
+    param_scale = 1.0         # factor applied to dense / broadcast-diagonal parameters (non-integer values on integer data)
+    float_params = False      # True: parameters of float kinds are float32 even when the data are integers
+
+    def pdt(self, dt):
+        """dtype of an operator's numeric parameters for data of dtype `dt`"""
+        if self.float_params and np.issubdtype(np.dtype(dt), np.integer):
+            return jnp.float32
+        return dt
+
     def build(self, t: dict):
         tid = t['id']
         if tid and tid in self.by_id:
@@ -146,11 +155,11 @@ class Builder:
             s = build_struct(t['s'])
             # parameter no wider than the data (C05's quantifier): a weakly typed python scalar becomes a
             # strong float64 inside lineax's jitted solve when x64 is on
-            return core.HomothetyOperator(jnp.asarray(p[0] / p[1], dtype=jax.tree.leaves(s)[0].dtype), s)
+            return core.HomothetyOperator(jnp.asarray(p[0] / p[1], dtype=self.pdt(jax.tree.leaves(s)[0].dtype)), s)
         if k == 'dense':
             r, c = p[0], p[1]
             s = build_struct(t['s'])
-            blk = jnp.asarray(np.array(p[2:], dtype=np.float64).reshape(r, c), dtype=s.dtype)
+            blk = jnp.asarray(np.array(p[2:], dtype=np.float64).reshape(r, c) * self.param_scale, dtype=self.pdt(s.dtype))
             return dense.DenseBlockDiagonalOperator(blk, s, 'ij,j->i')
         if k == 'obs':
             # a small CSR .npz file in the format ToastObservationMatrixOperator reads
@@ -175,17 +184,17 @@ class Builder:
                 jnp.asarray(p, dtype=s.dtype), s, method=self.toeplitz_method)
         if k == 'diag':
             s = build_struct(t['s'])
-            dt = jax.tree.leaves(s)[0].dtype
+            dt = self.pdt(jax.tree.leaves(s)[0].dtype)
             return diagonal.DiagonalOperator(jnp.asarray(p, dtype=dt), in_structure=s)
         if k == 'diagq':
             s = build_struct(t['s'])
-            dt = jax.tree.leaves(s)[0].dtype
+            dt = self.pdt(jax.tree.leaves(s)[0].dtype)
             return diagonal.DiagonalOperator(jnp.asarray([v / p[0] for v in p[1:]], dtype=dt), in_structure=s)
         if k == 'dinv':
             return diagonal.DiagonalInverseOperator(self.build(ch[0]))
         if k == 'bdiagb':
             s = build_struct(t['s'])
-            vals = jnp.asarray(np.array(p[2:], dtype=np.float64).reshape(p[0], p[1]), dtype=s.dtype)
+            vals = jnp.asarray(np.array(p[2:], dtype=np.float64).reshape(p[0], p[1]) * self.param_scale, dtype=self.pdt(s.dtype))
             return diagonal.BroadcastDiagonalOperator(vals, in_structure=s)
         if k == 'index':
             s = build_struct(t['s'])
